@@ -8,7 +8,7 @@ use digital_test_runner::TestCase;
 pub const META_C15: Meta = Meta {
     id: "C15",
     level: "exploration",
-    rule: "Four monitors per case (profiles `flow`+`expand`+`virtual`, 0-5 declare statements, some programs using random with the seed pinned through the hook, ~40% static programs): (1) re-parse: the same text is parsed and bound 6 times in one process (fresh HashMap RandomState each time) - all TestCase values must be ==, with identical `signals` order and identical Display; a digest of (Display, signal order, row stream) is also written per case and the orchestrator compares the digests produced by two separate processes (the dev-profile and release-profile shards run the same cases); (2) re-iterate: 3 iterations of one &TestCase with fresh devices replaying one script (one of them entered through the deprecated alias run_iter) give identical item streams, vars() and driver call logs; (2b) abandon: an iterator is dropped after a random number of steps (possibly inside a C/X expansion), the next full iteration must equal the first; (3) interleave: 2-4 iterators over one &TestCase, each with its own device, next() interleaved by round-robin / sequential / PRNG schedules - every stream equals the solo stream; (4) static: try_iter_static().is_ok() iff the model reads no outputs (scope rule of C11), and then its (inputs incl. changed, expected, line) stream equals the projection of every dynamic run against 4 devices (empty layout, all outputs unique numbers, all Z, permuted subset with X), error items at the same index; 6% of the cases carry a planted variable that is in scope, never assigned on the executed path and named like a device output (such a program reads no outputs), and the static stream consumed through step_by(2..4) must deliver every k-th item of the plain stream. Non-trivial = >= 2 virtual signals, or >= 2 interleaved iterators with >= 3 rows each under a non-sequential schedule, or a static program with a C/X expansion.",
+    rule: "Four monitors per case (profiles `flow`+`expand`+`virtual`, 0-5 declare statements, some programs using random with the seed pinned through the hook, ~40% static programs): (1) re-parse: the same text is parsed and bound 6 times in one process (fresh HashMap RandomState each time) - all TestCase values must be ==, with identical `signals` order and identical Display; a digest of (Display, signal order, row stream) is also written per case and the orchestrator compares the digests produced by two separate processes (the dev-profile and release-profile shards run the same cases); (2) re-iterate: 3 iterations of one &TestCase with fresh devices replaying one script (one of them entered through the deprecated alias run_iter) give identical item streams, vars() and driver call logs; (2b) abandon: an iterator is dropped after a random number of steps (possibly inside a C/X expansion), the next full iteration must equal the first; (3) interleave: 2-4 iterators over one &TestCase, each with its own device, next() interleaved by round-robin / sequential / PRNG schedules - every stream equals the solo stream; (4) static: try_iter_static().is_ok() iff the model reads no outputs (scope rule of C11), and then its (inputs incl. changed, expected, line) stream equals the projection of every dynamic run against 4 devices (empty layout, all outputs unique numbers, all Z, permuted subset with X), error items at the same index; 6% of the cases carry a planted variable that is in scope, never assigned on the executed path and named like a device output (such a program reads no outputs), and the static stream consumed through step_by(2..4) must deliver every k-th item of the plain stream, and try_iter(&mut static_test::Driver) (the crate's own zero-sized driver handed to the dynamic entry point) must deliver the static stream too. Non-trivial = >= 2 virtual signals, or >= 2 interleaved iterators with >= 3 rows each under a non-sequential schedule, or a static program with a C/X expansion.",
     assumptions: &["identical device scripts give identical answers (pure function of call index and signal)"],
     quick_cases: 40000,
     thorough_cases: 500000,
@@ -70,6 +70,38 @@ fn static_stream_stepped(tc: &TestCase, seed: u64, cap: usize, step: usize) -> R
                 Err(e) => Err(err_chain(&e)),
             })
             .collect(),
+    });
+    digital_test_runner::verif_hooks::set_seed_override(None);
+    let _ = digital_test_runner::verif_hooks::take_draw_log();
+    r
+}
+
+/// The test run *dynamically* against the crate's own zero-sized `static_test::Driver` (which
+/// answers every call with no outputs at all): for a program that reads no outputs this is one
+/// more dynamic run, and must deliver what `try_iter_static` delivers.
+fn static_driver_stream(tc: &TestCase, seed: u64, cap: usize) -> Result<Result<Vec<Result<StaticItem, String>>, String>, PanicInfo> {
+    digital_test_runner::verif_hooks::set_seed_override(Some(seed));
+    let r = guarded(|| {
+        let mut d = digital_test_runner::static_test::Driver;
+        let it = match tc.try_iter(&mut d) {
+            Err(e) => return Err(err_chain(&e)),
+            Ok(it) => it,
+        };
+        let mut v = vec![];
+        for item in it.take(cap) {
+            match item {
+                Ok(row) => v.push(Ok(StaticItem {
+                    line: row.line,
+                    inputs: row.inputs.iter().map(|e| (sidx(tc, e.signal), from_in(e.value), e.changed)).collect(),
+                    expected: row.outputs.iter().map(|e| (sidx(tc, e.signal), from_exp(e.expected))).collect(),
+                })),
+                Err(e) => {
+                    v.push(Err(err_chain(&e)));
+                    break;
+                }
+            }
+        }
+        Ok(v)
     });
     digital_test_runner::verif_hooks::set_seed_override(None);
     let _ = digital_test_runner::verif_hooks::take_draw_log();
@@ -231,10 +263,15 @@ pub fn c15(case_seed: u64, acc: &mut Acc) {
     if let Construct::Panic(p) = &solo.0 {
         viol!(Finding::new(p.signature(), format!("constructor panicked: {p:?}")));
     }
-    for rep in 0..2 {
-        // the second repetition enters through the deprecated alias `run_iter`
+    let cloned = tc.clone();
+    if cloned != *tc {
+        viol!(Finding::new("clone-differs", "TestCase::clone() != the original".to_string()));
+    }
+    for rep in 0..3 {
+        // the second repetition enters through the deprecated alias `run_iter`, the third
+        // iterates a clone of the test
         ENTER_THROUGH_RUN_ITER.with(|c| c.set(rep == 1));
-        let again = run_bound(if rep == 0 { tc } else { &tcs[1 + rep] }, &case.signals, &case.script, &opts);
+        let again = run_bound(if rep == 0 { tc } else if rep == 1 { &tcs[2] } else { &cloned }, &case.signals, &case.script, &opts);
         ENTER_THROUGH_RUN_ITER.with(|c| c.set(false));
         acc.evaluations += 1;
         if format!("{:?}", again.0) != format!("{:?}", solo.0) {
@@ -382,6 +419,29 @@ pub fn c15(case_seed: u64, acc: &mut Acc) {
                 }
             }
             acc.event("static_rows_compared_x4_devices", sitems.len() as u64);
+            // ... and the crate's own static driver handed to try_iter
+            if r.chance(300, 1000) {
+                match static_driver_stream(tc, seed, 200) {
+                    Err(p) => viol!(Finding::new(p.signature(), format!("try_iter(&mut static_test::Driver) panicked: {p:?}"))),
+                    Ok(Err(e)) => viol!(Finding::new("static-driver-refused", format!("program reads no outputs but try_iter(&mut static_test::Driver) failed: {e}"))),
+                    Ok(Ok(ditems)) => {
+                        acc.evaluations += 1;
+                        let same = ditems.len() == sitems.len()
+                            && ditems.iter().zip(sitems.iter()).all(|(a, b)| match (a, b) {
+                                (Ok(a), Ok(b)) => a == b,
+                                (Err(_), Err(_)) => true,
+                                _ => false,
+                            });
+                        if !same {
+                            viol!(Finding::new(
+                                "static-differs-from-dynamic",
+                                format!("try_iter(&mut static_test::Driver) gives {} items, try_iter_static {}: first difference {:?}", ditems.len(), sitems.len(), ditems.iter().zip(sitems.iter()).find(|(a, b)| a != b)),
+                            ));
+                        }
+                        acc.event("static_driver_streams_compared", 1);
+                    }
+                }
+            }
             // the static stream consumed through step_by / nth delivers the same items
             if sitems.len() >= 3 && sitems.len() < 200 && sitems.iter().all(|i| i.is_ok()) {
                 let step = 2 + r.below(3);
